@@ -13,6 +13,7 @@ import Pdt.Model.Strings
 import Pdt.Model.Export
 import Pdt.Model.Spec
 import Pdt.Model.Sql
+import Pdt.Model.Heap
 import Pdt.Gen.OpTable
 import Pdt.Gen.Casts
 
@@ -124,6 +125,52 @@ def runProgram (backend : Backend) (prog : Json) : Except String Json := do
               out := out.push (Json.mkObj (base ++ [("outcome", Json.str "error"), ("exc", Json.str e.toText)]))
   pure (Json.arr out)
 
+/-- build an expression object graph in a heap from its JSON tree:
+    {"leaf": tag} | {"op": name, "args": [..], "ctx": {key: [..]}} -/
+partial def heapOfJson (h : Heap.H) (j : Json) : Except String (Heap.H × Heap.Addr) := do
+  if let .ok t := j.getObjValAs? String "leaf" then
+    return h.alloc (.leaf t)
+  let op ← j.getObjValAs? String "op"
+  let aw := (j.getObjValAs? Bool "aggwin").toOption.getD false
+  let args ← (← j.getObjVal? "args").getArr?
+  let mut hh := h
+  let mut as : List Heap.Addr := []
+  for a in args.toList do
+    let r ← heapOfJson hh a
+    hh := r.1
+    as := as ++ [r.2]
+  let la := hh.alloc (.lst as)
+  hh := la.1
+  let mut es : List (String × Heap.Addr) := []
+  if let .ok (.obj kvs) := j.getObjVal? "ctx" then
+    for (k, v) in kvs.toList do
+      let mut vs : List Heap.Addr := []
+      for x in (← v.getArr?).toList do
+        let r ← heapOfJson hh x
+        hh := r.1
+        vs := vs ++ [r.2]
+      let lv := hh.alloc (.lst vs)
+      hh := lv.1
+      es := es ++ [(k, lv.2)]
+  let d := hh.alloc (.dict es)
+  return d.1.alloc (.node op aw la.2 d.2)
+
+def heapReport (grouped aggIsWindow : Bool) (tree : Json) : Except String String := do
+  -- the table's partition columns (empty when it is not grouped): a list object that exists before
+  -- the call; `agg_is_window=False` (summarize) injects nothing
+  let h0 : Heap.H := ⟨[.leaf "g"]⟩
+  let pl := h0.alloc (.lst (if grouped then [0] else []))
+  let (h, root) ← heapOfJson pl.1 tree
+  let r := Heap.pre (if aggIsWindow then some pl.2 else none) 64 h root
+  let oldWritten := (List.range h.size).filter (fun i => r.1.get i != h.get i)
+  let reached := (Heap.reach 64 r.1 r.2).eraseDups
+  let shared := reached.filter (fun a => a < h.size && (match h.get a with | some (.leaf _) => true | some _ => true | none => false))
+  let nodes := reached.filter (fun a => match r.1.get a with | some (.node ..) => true | some (.leaf _) => true | _ => false)
+  let withPart := reached.filter (fun a => match r.1.get a with
+    | some (.node _ _ _ d) => (Heap.entriesOf r.1 d).any (·.1 == "partition_by")
+    | _ => false)
+  pure s!"old_written={oldWritten.length} shared={shared.length} result_nodes={nodes.length} partition_nodes={withPart.length}"
+
 def handle (j : Json) : Except String String := do
   let cmd ← j.getObjValAs? String "cmd"
   match cmd with
@@ -206,6 +253,8 @@ def handle (j : Json) : Except String String := do
       match typeOf (.cast (.col 0 src .elementWise) tgt) with
       | .ok t => pure ("ok " ++ t.toText)
       | .error e => pure e.toText
+  | "heap" =>
+      heapReport (← j.getObjValAs? Bool "grouped") ((j.getObjValAs? Bool "agg_is_window").toOption.getD true) (← j.getObjVal? "tree")
   | "program" =>
       let b ← j.getObjValAs? String "backend"
       let r ← runProgram (backendOf b) (← j.getObjVal? "program")
